@@ -595,6 +595,19 @@ func cmdCheck(args []string) int {
 		pre += br.Probes["precondition_failed"]
 		nontriv += br.Nontrivial
 	}
+	// ... nor has one whose scenario kinds are no longer all reached (a world that silently stopped
+	// working would otherwise look clean)
+	if len(batches) > 0 && len(batches[0].Outs) > 0 && batches[0].Runs >= 4000 {
+		for _, pr := range batches[0].Outs[0].Meta.Reach {
+			n := 0
+			for _, br := range batches {
+				n += br.Probes[pr]
+			}
+			if n == 0 {
+				infra = append(infra, fmt.Sprintf("reach probe %q was never hit in %d runs: a part of the scenario space is no longer reached", pr, totalRuns))
+			}
+		}
+	}
 	if exit == 0 && totalRuns > 0 && nontriv*10 < totalRuns {
 		infra = append(infra, fmt.Sprintf("only %d of %d runs reached the behaviour the property is about (precondition failed in %d)", nontriv, totalRuns, pre))
 	}
